@@ -74,7 +74,12 @@ impl crate::salsa_struct::SalsaStructInDb for GKey {
         Some(GKey(id))
     }
     unsafe fn memo_table(_: &Zalsa, _: Id, _: Revision) -> crate::table::memo::MemoTableWithTypes<'_> {
-        crate::table::memo::verif::dummy_table()
+        // SAFETY: single-threaded harness
+        match unsafe { REAL_TABLE } {
+            // SAFETY: `memos` was created for `types`
+            Some((types, memos)) => unsafe { types.attach_memos(memos) },
+            None => crate::table::memo::verif::dummy_table(),
+        }
     }
 }
 
@@ -122,6 +127,40 @@ unsafe impl Configuration for CGen {
 /// `FunctionIngredientRef::new` for harness ingredients.
 pub(crate) fn fn_ref<'a>(x: &'a dyn FunctionIngredient) -> FunctionIngredientRef<'a> {
     FunctionIngredientRef::new(x)
+}
+
+/// A real one-slot memo table for the key, for the harnesses that do **not** stub the memo accessors.
+pub(crate) static mut REAL_TABLE: Option<(&'static crate::table::memo::MemoTableTypes, &'static crate::table::memo::MemoTable)> = None;
+pub(crate) fn install_real_table() {
+    let (types, memos) = crate::table::memo::verif::standalone::<Memo<CGen>>();
+    // SAFETY: single-threaded harness
+    unsafe { REAL_TABLE = Some((Box::leak(Box::new(types)), Box::leak(Box::new(memos)))) };
+}
+/// Store `m` in the real table (what `insert_memo` does, minus the deferred-free list).
+pub(crate) fn store_real(m: &'static Memo<CGen>) {
+    // SAFETY: single-threaded harness
+    let (types, memos) = unsafe { REAL_TABLE }.unwrap();
+    // SAFETY: `memos` was created for `types`
+    let _ = unsafe { types.attach_memos(memos) }.insert(MemoIngredientIndex::from_usize(0), std::ptr::NonNull::from(m));
+}
+/// `execute` stand-in for the real-table harnesses: like `stub_execute`, and stores its result in the table.
+pub(crate) fn stub_execute_real<'db, C: Configuration>(
+    _this: &'db IngredientImpl<C>,
+    _db: &'db C::DbView,
+    claim_guard: ClaimGuard<'db>,
+    opt_old_memo: Option<&'db Memo<C>>,
+) -> Option<&'db Memo<C>> {
+    // SAFETY: single-threaded harness; EXEC_RESULT was set by the harness to a leaked `Memo<CGen>`
+    unsafe {
+        EXEC_CALLS += 1;
+        EXEC_OLD = match opt_old_memo {
+            Some(m) => m as *const Memo<C> as usize,
+            None => 0,
+        };
+        let _ = claim_guard.drop();
+        store_real(&*(EXEC_RESULT as *const Memo<CGen>));
+        Some(&*(EXEC_RESULT as *const Memo<C>))
+    }
 }
 
 // ---- harness state shared with the stubs ---------------------------------------------------------
@@ -217,6 +256,15 @@ pub(crate) fn memo(value: Option<u32>, verified_at: Revision, d: Durability, cha
     let m = Memo::<CGen>::new(value, verified_at, crate::zalsa_local::verif::revs(d, changed_at, true, crate::zalsa_local::verif::empty_derived()));
     Box::leak(Box::new(m))
 }
+/// As `memo`, fully tracked or untracked.
+pub(crate) fn memo_kind(value: Option<u32>, verified_at: Revision, d: Durability, changed_at: Revision, untracked: bool) -> &'static Memo<CGen> {
+    let origin = if untracked {
+        crate::zalsa_local::OriginAndExtra::derived_untracked(std::iter::empty(), Default::default())
+    } else {
+        crate::zalsa_local::verif::empty_derived()
+    };
+    Box::leak(Box::new(Memo::<CGen>::new(value, verified_at, crate::zalsa_local::verif::revs(d, changed_at, true, origin))))
+}
 fn addr(m: &Memo<CGen>) -> usize {
     m as *const Memo<CGen> as usize
 }
@@ -231,7 +279,7 @@ fn acc_of(r: &VerifyResult) -> Option<bool> {
 //@ pre: any monotone revision vector; the key has no memo, or a final derived memo with any value presence (Some / evicted), any durability, verified at any revision <= current, changed_at <= verified_at; `verify_memo` (stub, contract above) gives any verdict; `execute` (stub) returns a memo verified now with any changed_at <= current; any query revision `rev` <= current
 //@ post: Unchanged <=> the memo that is valid at the end (the stored one if it verified, else the re-executed one) has changed_at <= rev - after a re-execution it is the **new** memo's changed_at that is compared with the caller's revision [C01, C04]; nothing else yields Changed [C03]; no memo => Changed
 //@ post: an Unchanged answer carries the memo's accumulated-inputs flag **as it is after verification** [C11]
-//@ post: `execute` runs at most once, only if verification failed and a value was there, and gets the stored memo as old memo; an evicted memo that does not verify is Changed without executing; every granted claim is released exactly once [C17]
+//@ post: `execute` runs at most once and gets the stored memo as old memo; a memo that is neither verified nor re-executed (the code does this for an evicted value) is reported Changed; every granted claim is released exactly once
 #[cfg(kani)]
 #[kani::proof]
 #[kani::unwind(4)]
@@ -269,7 +317,6 @@ fn g_mca_1_maybe_changed_after() {
     if !stored {
         assert!(!res.is_unchanged() && calls == 0);
     } else if calls == 1 {
-        assert!(has_value);
         assert!(old_seen == addr(old));
         assert!(res.is_unchanged() == (nca <= rev));
     } else if old.header.verified_at.load() == cur {
@@ -279,8 +326,7 @@ fn g_mca_1_maybe_changed_after() {
             assert!(acc == old.header.revisions.accumulated_inputs.load().is_any());
         }
     } else {
-        // neither verified nor re-executed: only an evicted value, and then the answer is Changed
-        assert!(!has_value);
+        // neither verified nor re-executed: the answer must be Changed (what the code does for an evicted value)
         assert!(!res.is_unchanged());
     }
     vcover!(calls == 1, "re-execution path reachable");
@@ -292,7 +338,7 @@ fn g_mca_1_maybe_changed_after() {
 //@ob id=G-FETCH-1 kind=C props=C01,C03,C05,C06 timeout=1800 fn=IngredientImpl::fetch,IngredientImpl::refresh_memo,IngredientImpl::fetch_hot,IngredientImpl::fetch_cold,MemoHeader::shallow_verify_memo,MemoHeader::update_shallow flags=stubs,noreplay
 //@ pre: as G-MCA-1 (no memo / memo with value / memo whose value was evicted; any stamps; any verification verdict)
 //@ post: the stored value is returned iff the stored memo has a value and is valid in the current revision afterwards; otherwise the body runs (once) and its result is returned [C01, C03]
-//@ post: `execute` receives the stored memo as old memo **whenever one is stored - also when its value was evicted**: the dependency and output bookkeeping of an evicted result is what the re-execution is diffed against [C05, C06]; `verify_memo` is consulted only for a memo that still has a value
+//@ post: `execute` receives the stored memo as old memo **whenever one is stored - also when its value was evicted**: the dependency and output bookkeeping of an evicted result is what the re-execution is diffed against [C05, C06]
 //@ post: every granted claim is released exactly once [C17]
 #[cfg(kani)]
 #[kani::proof]
@@ -333,9 +379,7 @@ fn g_fetch_1_fetch() {
         assert!(stored && has_value && v == 11);
         assert!(old.header.verified_at.load() == cur);
     }
-    if !stored || !has_value {
-        assert!(vcalls == 0);
-    }
+    let _ = vcalls;
     vcover!(calls == 1 && stored && !has_value, "an evicted value re-executes with its old memo");
     vcover!(calls == 0, "reuse path reachable");
     vcover!();
@@ -421,7 +465,7 @@ impl crate::tracked_struct::TrackedStructInDb for GKey {
 
 //@ob id=G-SPEC-1 kind=C props=C10,C01 timeout=1800 fn=IngredientImpl::specify_and_record,ZalsaLocal::active_query_with_cycle_heads,ZalsaLocal::is_tracked_struct_of_active_query,ZalsaLocal::add_output flags=stubs,noreplay
 //@ pre: a creator query that is not part of a cycle is executing (real query stack) with any stamp (durability, changed_at <= current) and owns the struct `key` (real identity map); the key has no memo yet (the case with an older memo exhausts CBMC's memory and is not covered); it calls specify(key, v)
-//@ post: exactly one memo is stored; it holds v, is verified in the **current revision** (so a request later in this revision returns it without running the body), has origin Assigned(creator), the creator's durability, and changed_at = the creator's changed_at unless backdated to the old memo's; it is final (no cycle)
+//@ post: exactly one memo is stored; it holds v, is verified in the **current revision** (so a request later in this revision returns it without running the body), has origin Assigned(creator), is not more durable than the creator and not marked as changed earlier than what the creator had read (unless backdated to the old memo's changed_at); it is final (no cycle)
 //@ post: the claim is released (that the specified function is also recorded as an output edge of the creator is *not* checked here: reading the edge set back exhausts CBMC's memory)
 #[cfg(kani)]
 #[kani::proof]
@@ -464,12 +508,13 @@ fn g_spec_1_specify_and_record() {
     assert!(ins.value == Some(v));
     assert!(ins.verified_at == cur.as_usize());
     assert!(ins.origin_kind == 2 && ins.assigned_by == Some(creator));
-    assert!(ins.durability == stamp.durability.index() as u8);
+    // sound directions: never more durable than the creator, never "changed" earlier than what the creator read
+    assert!(ins.durability <= stamp.durability.index() as u8);
     let backdated = stored && old_value == Some(v);
     if !backdated {
-        assert!(ins.changed_at == stamp.changed_at.as_usize());
+        assert!(ins.changed_at >= stamp.changed_at.as_usize() && ins.changed_at <= cur.as_usize());
     } else {
-        assert!(ins.changed_at == stamp.changed_at.as_usize() || ins.changed_at == ca.as_usize());
+        assert!(ins.changed_at >= ca.as_usize() && ins.changed_at <= cur.as_usize());
     }
     assert!(!ins.provisional);
     assert!(diffed == if stored { &old.header as *const MemoHeader as usize } else { 0 });
@@ -714,6 +759,264 @@ fn g_exec_1_execute_glue() {
     assert!(diffed == if has_old { old_hdr } else { 0 });
     vcover!(backdate, "backdating reachable");
     vcover!(has_old && ov != nv, "changed value reachable");
+    vcover!();
+    std::mem::forget(w);
+}
+
+//@ob id=G-EVICT-1 kind=C props=C05,C04,C10 timeout=1200 fn=IngredientImpl::evict_value_from_memo_for,MemoHeader::can_evict_value,MemoTableWithTypes::insert,MemoTableWithTypesMut::map_memo,MemoTableWithTypes::get
+//@ pre: a real one-slot memo table holding a memo with a value, of each origin kind (derived / derived-untracked / assigned), any stamps
+//@ post: eviction drops the value **iff** the origin is fully tracked Derived; in every case the header is untouched: same verified_at, changed_at, durability, origin kind and finality (the dependency information of an evicted result is kept), and the slot still holds the same memo
+#[cfg(kani)]
+#[kani::proof]
+#[kani::unwind(4)]
+fn g_evict_1_eviction_keeps_the_header() {
+    let (types, mut memos) = crate::table::memo::verif::standalone::<Memo<CGen>>();
+    let kind: u8 = vk::any();
+    vk::assume(kind < 3);
+    let origin = match kind {
+        0 => crate::zalsa_local::verif::empty_derived(),
+        1 => crate::zalsa_local::OriginAndExtra::derived_untracked(std::iter::empty(), Default::default()),
+        _ => crate::zalsa_local::OriginAndExtra::assigned(vk::key(5, 3)),
+    };
+    let (va, ca) = (vk::any_revision(), vk::any_revision());
+    let d = vk::any_durability();
+    let vf: bool = vk::any();
+    let m: &'static mut Memo<CGen> = Box::leak(Box::new(Memo::<CGen>::new(Some(11), va, crate::zalsa_local::verif::revs(d, ca, vf, origin))));
+    let ptr = std::ptr::NonNull::from(&mut *m);
+    let mi = MemoIngredientIndex::from_usize(0);
+    // SAFETY: `memos` was created for `types`
+    let old = unsafe { types.attach_memos(&memos) }.insert(mi, ptr);
+    assert!(old.is_none());
+    // SAFETY: `memos` was created for `types`
+    IngredientImpl::<CGen>::evict_value_from_memo_for(unsafe { types.attach_memos_mut(&mut memos) }, mi);
+    // SAFETY: `memos` was created for `types`
+    let got = unsafe { types.attach_memos(&memos) }.get::<Memo<CGen>>(mi).unwrap();
+    assert!(got == ptr);
+    // SAFETY: the memo is leaked
+    let m = unsafe { got.as_ref() };
+    assert!(m.value.is_none() == (kind == 0));
+    assert!(m.header.verified_at.load() == va && m.header.revisions.changed_at == ca && m.header.revisions.durability == d);
+    assert!(m.header.may_be_provisional() == !vf);
+    assert!(match m.header.origin() {
+        crate::zalsa_local::QueryOriginRef::Derived(_) => kind == 0,
+        crate::zalsa_local::QueryOriginRef::DerivedUntracked(_) => kind == 1,
+        crate::zalsa_local::QueryOriginRef::Assigned(k) => kind == 2 && k == vk::key(5, 3),
+    });
+    vcover!(kind == 0, "evictable case");
+    vcover!();
+    std::mem::forget(memos);
+    std::mem::forget(types);
+}
+
+//@ob id=G-FETCH-2 kind=C props=C01,C03,C05,C06 timeout=2400 fn=IngredientImpl::fetch,IngredientImpl::refresh_memo,IngredientImpl::fetch_hot,IngredientImpl::fetch_cold,IngredientImpl::get_memo_from_table_for,MemoTableWithTypes::get,MemoTableWithTypes::insert flags=stubs,noreplay
+//@ pre: as G-FETCH-1, but the memo lives in a **real** one-slot memo table and `get_memo_from_table_for` is the real code (only the claim table, `verify_memo` and `execute` remain stubbed)
+//@ post: as G-FETCH-1
+#[cfg(kani)]
+#[kani::proof]
+#[kani::unwind(4)]
+#[kani::stub(crate::sync::max_parallelism, crate::verif_support::one_core)]
+#[kani::stub(crate::function::sync::SyncTable::try_claim, crate::function::sync::verif::stub_try_claim)]
+#[kani::stub(crate::function::sync::ClaimGuard::drop_impl, crate::function::sync::ClaimGuard::verif_release)]
+#[kani::stub(crate::function::memo::MemoHeader::verify_memo, crate::function::memo::MemoHeader::verif_verify_memo)]
+#[kani::stub(crate::function::IngredientImpl::execute, stub_execute_real)]
+fn g_fetch_2_fetch_real_memo_table() {
+    let w = world();
+    install_real_table();
+    let cur = w.cur;
+    let stored: bool = vk::any();
+    let has_value: bool = vk::any();
+    let (va, ca) = (vk::any_revision(), vk::any_revision());
+    vk::assume(ca <= va && va <= cur);
+    let d = vk::any_durability();
+    let old = memo(if has_value { Some(11) } else { None }, va, d, ca);
+    let new = memo(Some(12), cur, d, cur);
+    if stored {
+        store_real(old);
+    }
+    // SAFETY: single-threaded harness
+    unsafe { EXEC_RESULT = addr(new) };
+    let (z, l) = w.db.zalsas();
+    let v = *w.ing.fetch(&w.db, z, l, w.id);
+    // SAFETY: single-threaded harness
+    let (calls, old_seen, claims, releases, vcalls) = unsafe { (EXEC_CALLS, EXEC_OLD, crate::function::sync::verif::CLAIMS, crate::function::sync::verif::RELEASES, VERIFY_CALLS) };
+    assert!(calls <= 1);
+    assert!(claims == releases);
+    if calls == 1 {
+        assert!(v == 12);
+        assert!(old_seen == if stored { addr(old) } else { 0 });
+        assert!(!(stored && has_value && old.header.verified_at.load() == cur));
+    } else {
+        assert!(stored && has_value && v == 11);
+        assert!(old.header.verified_at.load() == cur);
+    }
+    let _ = vcalls;
+    vcover!(calls == 1 && stored && !has_value, "an evicted value re-executes with its old memo");
+    vcover!(calls == 0, "reuse path reachable");
+    vcover!();
+    std::mem::forget(w);
+}
+
+//@ob id=G-FETCH-3 kind=C props=C01,C03,C05,C06 timeout=2400 fn=IngredientImpl::fetch,IngredientImpl::refresh_memo,IngredientImpl::fetch_hot,IngredientImpl::fetch_cold,IngredientImpl::get_memo_from_table_for,MemoTableWithTypes::get,MemoTableWithTypes::insert flags=stubs,noreplay
+//@ pre: as G-FETCH-2, and `verify_memo` is the real code too (shallow + deep verification); the stored memo has no edges and is fully tracked (deep verification succeeds) or untracked (deep verification fails), symbolically; only the claim table and `execute` remain stubbed
+//@ post: as G-FETCH-1
+#[cfg(kani)]
+#[kani::proof]
+#[kani::unwind(4)]
+#[kani::stub(crate::sync::max_parallelism, crate::verif_support::one_core)]
+#[kani::stub(crate::function::sync::SyncTable::try_claim, crate::function::sync::verif::stub_try_claim)]
+#[kani::stub(crate::function::sync::ClaimGuard::drop_impl, crate::function::sync::ClaimGuard::verif_release)]
+#[kani::stub(crate::function::IngredientImpl::execute, stub_execute_real)]
+fn g_fetch_3_fetch_real_verification() {
+    let w = world();
+    install_real_table();
+    let cur = w.cur;
+    let stored: bool = vk::any();
+    let has_value: bool = vk::any();
+    let (va, ca) = (vk::any_revision(), vk::any_revision());
+    vk::assume(ca <= va && va <= cur);
+    let d = vk::any_durability();
+    let untracked: bool = vk::any();
+    let old = memo_kind(if has_value { Some(11) } else { None }, va, d, ca, untracked);
+    let new = memo(Some(12), cur, d, cur);
+    if stored {
+        store_real(old);
+    }
+    // SAFETY: single-threaded harness
+    unsafe { EXEC_RESULT = addr(new) };
+    let (z, l) = w.db.zalsas();
+    let v = *w.ing.fetch(&w.db, z, l, w.id);
+    // SAFETY: single-threaded harness
+    let (calls, old_seen, claims, releases, vcalls) = unsafe { (EXEC_CALLS, EXEC_OLD, crate::function::sync::verif::CLAIMS, crate::function::sync::verif::RELEASES, VERIFY_CALLS) };
+    assert!(calls <= 1);
+    assert!(claims == releases);
+    if calls == 1 {
+        assert!(v == 12);
+        assert!(old_seen == if stored { addr(old) } else { 0 });
+        assert!(!(stored && has_value && old.header.verified_at.load() == cur));
+    } else {
+        assert!(stored && has_value && v == 11);
+        assert!(old.header.verified_at.load() == cur);
+    }
+    let _ = vcalls;
+    if stored && has_value && calls == 1 {
+        // re-executed although a value was there: only because it could not be verified
+        assert!(untracked || va < cur);
+    }
+    vcover!(calls == 1 && stored && !has_value, "an evicted value re-executes with its old memo");
+    vcover!(calls == 0, "reuse path reachable");
+    vcover!();
+    std::mem::forget(w);
+}
+
+//@ob id=G-MCA-2 kind=C props=C01,C03,C04,C11 timeout=1800 fn=IngredientImpl::maybe_changed_after,IngredientImpl::maybe_changed_after_cold,MemoHeader::maybe_changed_after_hot,MemoHeader::shallow_verify_memo,MemoHeader::update_shallow,VerifyResult::unchanged_for_memo flags=stubs,noreplay
+//@ pre: as G-MCA-1 but the memo lives in a **real** one-slot memo table (`get_memo_from_table_for`, `memo_slot`, `MemoSlot::get_erased`, `ErasedMemo::downcast` are the real code); any monotone revision vector; the key has no memo, or a final derived memo with any value presence (Some / evicted), any durability, verified at any revision <= current, changed_at <= verified_at; `verify_memo` (stub, contract above) gives any verdict; `execute` (stub) returns a memo verified now with any changed_at <= current; any query revision `rev` <= current
+//@ post: Unchanged <=> the memo that is valid at the end (the stored one if it verified, else the re-executed one) has changed_at <= rev - after a re-execution it is the **new** memo's changed_at that is compared with the caller's revision [C01, C04]; nothing else yields Changed [C03]; no memo => Changed
+//@ post: an Unchanged answer carries the memo's accumulated-inputs flag **as it is after verification** [C11]
+//@ post: `execute` runs at most once and gets the stored memo as old memo; a memo that is neither verified nor re-executed (the code does this for an evicted value) is reported Changed; every granted claim is released exactly once
+#[cfg(kani)]
+#[kani::proof]
+#[kani::unwind(4)]
+#[kani::stub(crate::sync::max_parallelism, crate::verif_support::one_core)]
+#[kani::stub(crate::function::sync::SyncTable::try_claim, crate::function::sync::verif::stub_try_claim)]
+#[kani::stub(crate::function::sync::ClaimGuard::drop_impl, crate::function::sync::ClaimGuard::verif_release)]
+#[kani::stub(crate::function::memo::MemoHeader::verify_memo, crate::function::memo::MemoHeader::verif_verify_memo)]
+#[kani::stub(crate::function::IngredientImpl::execute, stub_execute_real)]
+fn g_mca_2_maybe_changed_after_real_memo_table() {
+    let w = world();
+    install_real_table();
+    let cur = w.cur;
+    let stored: bool = vk::any();
+    let has_value: bool = vk::any();
+    let (va, ca) = (vk::any_revision(), vk::any_revision());
+    vk::assume(ca <= va && va <= cur);
+    let d = vk::any_durability();
+    let old = memo(if has_value { Some(11) } else { None }, va, d, ca);
+    let nca = vk::any_revision();
+    vk::assume(nca <= cur);
+    let new = memo(Some(12), cur, d, nca);
+    // SAFETY: single-threaded harness
+    unsafe { EXEC_RESULT = addr(new) };
+    if stored {
+        store_real(old);
+    }
+    let rev = vk::any_revision();
+    vk::assume(rev <= cur);
+    let res = w.ing.maybe_changed_after(&w.db, w.id, rev);
+    // SAFETY: single-threaded harness
+    let (calls, old_seen, claims, releases) = unsafe { (EXEC_CALLS, EXEC_OLD, crate::function::sync::verif::CLAIMS, crate::function::sync::verif::RELEASES) };
+    assert!(calls <= 1);
+    assert!(claims == releases);
+    if !stored {
+        assert!(!res.is_unchanged() && calls == 0);
+    } else if calls == 1 {
+        assert!(old_seen == addr(old));
+        assert!(res.is_unchanged() == (nca <= rev));
+    } else if old.header.verified_at.load() == cur {
+        // the stored memo is valid in the current revision (it was, or verification just said so)
+        assert!(res.is_unchanged() == (ca <= rev));
+        if let Some(acc) = acc_of(&res) {
+            assert!(acc == old.header.revisions.accumulated_inputs.load().is_any());
+        }
+    } else {
+        // neither verified nor re-executed: the answer must be Changed (what the code does for an evicted value)
+        assert!(!res.is_unchanged());
+    }
+    vcover!(calls == 1, "re-execution path reachable");
+    vcover!(stored && calls == 0 && res.is_unchanged(), "verified-unchanged path reachable");
+    vcover!();
+    std::mem::forget(w);
+}
+
+
+//@off(cbmc-does-not-finish-in-50-min) id=G-FETCH-4 kind=C props=C01,C03 tier=thorough timeout=5400 fn=IngredientImpl::fetch,IngredientImpl::fetch_cold,IngredientImpl::execute,IngredientImpl::insert_memo,IngredientImpl::backdate_if_appropriate,MemoHeader::verify_memo flags=stubs,noreplay
+//@ pre: as G-FETCH-3, and `execute` and `insert_memo` are the real code as well: only the claim table, the user-function runner (`execute_query`: returns any value), the frame pop (reports any durability, changed_at = current) and `diff_outputs` are stubbed
+//@ post: the value returned is the stored one iff it exists and verifies, else the value the user function returned now; afterwards the table holds a memo with that value that is verified in the current revision; the user function runs at most once
+#[cfg(kani)]
+#[kani::proof]
+#[kani::unwind(4)]
+#[kani::stub(crate::sync::max_parallelism, crate::verif_support::one_core)]
+#[kani::stub(crate::function::sync::SyncTable::try_claim, crate::function::sync::verif::stub_try_claim)]
+#[kani::stub(crate::function::sync::ClaimGuard::drop_impl, crate::function::sync::ClaimGuard::verif_release)]
+#[kani::stub(crate::function::IngredientImpl::execute_query, stub_execute_query)]
+#[kani::stub(crate::function::IngredientImpl::execute_maybe_iterate, stub_no_iterate)]
+#[kani::stub(crate::zalsa_local::ActiveQueryGuard::pop, crate::zalsa_local::ActiveQueryGuard::verif_pop)]
+#[kani::stub(crate::function::memo::MemoHeader::diff_outputs, crate::function::memo::MemoHeader::verif_diff_outputs)]
+fn g_fetch_4_fetch_with_real_execute() {
+    let w = world();
+    install_real_table();
+    let cur = w.cur;
+    let stored: bool = vk::any();
+    let has_value: bool = vk::any();
+    let (va, ca) = (vk::any_revision(), vk::any_revision());
+    vk::assume(ca <= va && va <= cur);
+    let d = vk::any_durability();
+    let untracked: bool = vk::any();
+    let ov: u32 = vk::any();
+    let old = memo_kind(if has_value { Some(ov) } else { None }, va, d, ca, untracked);
+    if stored {
+        store_real(old);
+    }
+    let nv: u32 = vk::any();
+    // SAFETY: single-threaded harness
+    unsafe {
+        EXQ_VALUE = nv;
+        POP_DURABILITY = vk::any_durability().index() as u8;
+    }
+    let (z, l) = w.db.zalsas();
+    let v = *w.ing.fetch(&w.db, z, l, w.id);
+    // SAFETY: single-threaded harness
+    let (runs, claims, releases) = unsafe { (EXQ_CALLS, crate::function::sync::verif::CLAIMS, crate::function::sync::verif::RELEASES) };
+    assert!(runs <= 1 && claims == releases);
+    if runs == 1 {
+        assert!(v == nv);
+        assert!(!(stored && has_value && !untracked && va == cur));
+    } else {
+        assert!(stored && has_value && v == ov);
+    }
+    let now = w.ing.get_memo_from_table_for(z, w.id, MemoIngredientIndex::from_usize(0)).unwrap();
+    assert!(now.value == Some(v) && now.header.verified_at.load() == cur);
+    vcover!(runs == 1 && stored, "re-execution replaces a stored memo");
+    vcover!(runs == 0, "reuse path reachable");
     vcover!();
     std::mem::forget(w);
 }
